@@ -20,10 +20,11 @@ THEOREMS = [
     "Qentem.Props.C06.token_negative",
     "Qentem.Props.C06.token_zero",
     "Qentem.Props.C06.token_escaped_string",
+    "Qentem.Props.C06.token_string_body",
     "Qentem.Props.C06.objInsert_last_wins_first_position",
     "Qentem.Props.C06.objInsert_new_key_appended",
 ]
-OPEN = ["NumSpec for numerals with fraction/exponent (C09 real_within_one_ulp is open)", "StrSpec for bodies with \\uXXXX escapes above 0x1F and surrogate pairs: proved in C20 (unescape_text) but not yet restated as StrSpec"]
+OPEN = ["NumSpec for numerals with fraction/exponent: exact consumption is proved (C09 consumed_exact_real) but the value is C09's open real_within_one_ulp"]
 
 
 def run(ctx):
